@@ -746,6 +746,7 @@ func runCheckOne(args []string) int {
 }
 
 var standingAssumptions = []string{
+	"contracts attach to the code by name; names that were merely renamed since the baselines were written (functions, parameters, locals) are identified by position, type and signature from baseline/_shape.json, a text site that matches nothing is re-attached to the only call of the same callee, and statements moved into a new uncontracted helper keep their site assertions - each application is listed in the notes of the run",
 	"Go integers are mathematical integers (no overflow / truncation modelled, except that a multiplication by a constant >= 1000 in a function under contract carries the side condition that the product fits in 64 bits); float64 is modelled as real",
 	"strings are SMT-LIB strings (ids and keys treated as character sequences)",
 	"pointer receivers are non-nil; pointer parameters are not nil-checked by the sweep",
